@@ -110,6 +110,14 @@ package sunlight
 //@ func sunlight.ParseTilePath props C10
 //@   call tlog.ParseTilePath requires [C10] prefix-exactly-replaced: (c_path == "tile/8/data/" + rest__1 && path == "tile/names/" + rest__1) || (c_path == "tile/8/" + rest__2 && path == "tile/" + rest__2)
 //@   returns [C10] names-tiles-are-level-minus-two: (ret1 == nil && hasPrefix(path, "tile/names/")) ==> ret0.L == -2
+//@   returns [C10] accepts-only-the-static-ct-spellings: ret1 == nil ==> (hasPrefix(path, "tile/names/") || hasPrefix(path, "tile/"))
+//@   returns [C10] names-tile-is-the-tlog-parse-of-the-data-path: (ret1 == nil && hasPrefix(path, "tile/names/")) ==> (tlogParses("tile/8/data/" + trimPrefix(path, "tile/names/")) && ret0.H == tlogParse("tile/8/data/" + trimPrefix(path, "tile/names/")).H && ret0.N == tlogParse("tile/8/data/" + trimPrefix(path, "tile/names/")).N && ret0.W == tlogParse("tile/8/data/" + trimPrefix(path, "tile/names/")).W)
+//@   returns [C10] other-tiles-are-the-tlog-parse-of-the-height-8-path: (ret1 == nil && !hasPrefix(path, "tile/names/")) ==> (tlogParses("tile/8/" + trimPrefix(path, "tile/")) && ret0 == tlogParse("tile/8/" + trimPrefix(path, "tile/")))
+//@ pure func tlogParse(path string) tlog.Tile
+//@ pure func tlogParses(path string) bool
+//@ assume func tlog.ParseTilePath params path
+//@   ensures (ret1 == nil) == tlogParses(path)
+//@   ensures ret1 == nil ==> ret0 == tlogParse(path)
 
 //@ func sunlight.TilePath props C10
 //@   returns [C10] names-path: old(t).L == -2 ==> ret == "tile/names/" + trimPrefix(tlogTilePath(tileWithL(old(t), -1)), "tile/8/data/")
